@@ -240,6 +240,17 @@ class Worker:
                 ) from e
         if state["last"] is not None:
             case, new = state["last"]
+            # A violation is reported only if the shrunk case fails again when it is run once more on its
+            # own: a verdict that depends on scheduling (child processes, load) is not a violation of the
+            # property.  Unreproducible failures are counted in the evidence.
+            self.note_case(sub.name, case)
+            again = self.triage(sub.name, case, execute(sub.run, case), SubStats("confirm"))
+            if not again:
+                stats.labels["unreproducible_failure_not_reported"] += 1
+                stats.inconclusive = True
+                state["last"] = None
+        if state["last"] is not None:
+            case, new = state["last"]
             stats.failures.append(
                 {
                     "sub": sub.name,
